@@ -206,6 +206,8 @@ void vf_ulock_unlock(struct vf_lock *l)
 }
 _Bool vf_lock_owns(struct vf_lock *l) { return l->owns; }
 struct vf_mutex *vf_lock_mutex(struct vf_lock *l) { return l->m; }
+void vf_lock_swap(struct vf_lock *a, struct vf_lock *b) { struct vf_lock t = *a; *a = *b; *b = t; }      /* no mutex operation */
+struct vf_mutex *vf_lock_release(struct vf_lock *l) { struct vf_mutex *m = l->m; l->m = 0; l->owns = 0; return m; }   /* gives up ownership WITHOUT unlocking */
 
 /* ------------------------------------------------------------------ shared_lock */
 void vf_slock_ctor(struct vf_lock *l) { l->m = 0; l->owns = 0; }
